@@ -261,6 +261,7 @@ for _p, _t in _EXTRA6.items():
 
 # Seventh round (DESIGN §8 round 7).
 _EXTRA7 = {
+ "C11": " Seventh round: (R-PATH-2) a path used by a clean-up after user statements ran (the removal of an empty --out file) is absolute, because CHDIR changes the working directory.",
  "C12": " Seventh round: (R-PAR-5, engine E11) the task ranges tile the input: RecordRange read path by path as polynomials over (task index, recordLen, Number, recordLen/Number) gives start(0) = 0, end(i) = start(i+1), end(last) = recordLen, empty ranges only beyond the last row; every consumer walks exactly [start, end); every task function is started for each index 0 … Number−1 — the rows the workers handle are a partition of the input for every --cpu.",
  "C13": " Seventh round: (R-PAR-5) the workers' row ranges are disjoint (premise of R-PAR-1's index-partitioned writes).",
  "C03": " Seventh round: (R-PAR-5) the parallel paths of WHERE / JOIN hand every row to exactly one worker; R-CMP-6 registered (the BETWEEN / IN expansions decide which rows WHERE keeps); R-CMP-10, R-KEY-7 registered.",
